@@ -97,6 +97,24 @@ class Path:
                     self.inserts.append((m.group(1), [p.strip() for p in parts]))
         self.ret = row["outcome"]
 
+    def norm(self, text):
+        """Port records are named by the cache slot that holds them: a record stored on this path under files[K] (or as the
+        default port), and the lookups `self.files.get(K).some` / `self.default_port.some`, all become `files[K]` /
+        `default_port`.  A sharing key is then a function of the request parameters in every spelling."""
+        t = text
+        for e in self.row["effects"]:
+            m = re.match(r"insert files \[(.*)\]$", e)
+            if m:
+                parts = codegen.split_top(m.group(1))
+                if len(parts) == 2:
+                    t = t.replace(parts[1].strip(), "files[%s]" % parts[0].strip())
+            m = re.match(r"set default_port = Some\((.*)\)$", e)
+            if m:
+                t = t.replace(m.group(1).strip(), "default_port")
+        t = re.sub(r"self\.files\.get\(((?:[^()]|\([^()]*\))*)\)\.(?:some|unwrap\(\))", lambda m_: "files[%s]" % m_.group(1), t)
+        t = re.sub(r"self\.default_port\.(?:some|unwrap\(\))", "default_port", t)
+        return t
+
     def bound_names(self):
         """(kind, idx) for the binder of every pushed definition and every lambda parameter."""
         out = []
